@@ -14,6 +14,62 @@ fn pair() -> (UdpSocket, UdpSocket) {
     (a, b)
 }
 
+/// a write that fails (the peer's port is closed: the send after the one that drew the ICMP error is refused) and then writes
+/// that succeed again: each successful write is one datagram holding exactly its frame — nothing of the refused one rides along
+pub fn refused_send_case(ctx: &mut Ctx, fl: Flavour, compressed: bool) {
+    ctx.oracle_eval("write-after-refused-send");
+    let input = format!("udp.refused {} {}", fl.tok(), mode_tok(compressed));
+    let sb = size_byte(compressed, 4);
+    let tiny = |r: u8| -> insim::Packet { insim::insim::Tiny { reqi: insim::identifiers::RequestId(r), subt: insim::insim::TinyType::Ping }.into() };
+    let got: Option<(Vec<bool>, Vec<Vec<u8>>)> = guard(std::panic::AssertUnwindSafe(move || {
+        let a = UdpSocket::bind("127.0.0.1:0").unwrap();
+        let peer = UdpSocket::bind("127.0.0.1:0").unwrap();
+        let peer_addr = peer.local_addr().unwrap();
+        a.connect(peer_addr).unwrap();
+        drop(peer);     // nobody listens: the first send draws an ICMP "port unreachable", reported on a later call
+        match fl {
+            Flavour::Blocking => {
+                let mut f = insim::net::blocking_impl::Framed::new(Box::new(insim::net::blocking_impl::UdpStream::from(a)), Codec::new(mode_of(compressed)));
+                let mut oks = vec![];
+                for r in 1..=3u8 { oks.push(f.write(tiny(r)).is_ok()); }
+                let p2 = UdpSocket::bind(peer_addr).unwrap();
+                p2.set_read_timeout(Some(Duration::from_millis(100))).unwrap();
+                for r in 4..=5u8 { oks.push(f.write(tiny(r)).is_ok()); }
+                let mut got = vec![]; let mut buf = [0u8; 2048];
+                while let Ok(n) = p2.recv(&mut buf) { got.push(buf[..n].to_vec()); }
+                (oks, got)
+            },
+            Flavour::Tokio => {
+                let rt = tokio::runtime::Builder::new_current_thread().enable_all().build().unwrap();
+                rt.block_on(async move {
+                    a.set_nonblocking(true).unwrap();
+                    let s = insim::net::tokio_impl::UdpStream::from(tokio::net::UdpSocket::from_std(a).unwrap());
+                    let mut f = insim::net::tokio_impl::Framed::new(Box::new(s), Codec::new(mode_of(compressed)));
+                    let mut oks = vec![];
+                    for r in 1..=3u8 { oks.push(matches!(tokio::time::timeout(Duration::from_millis(300), f.write(tiny(r))).await, Ok(Ok(())))); }
+                    let p2 = UdpSocket::bind(peer_addr).unwrap();
+                    p2.set_read_timeout(Some(Duration::from_millis(100))).unwrap();
+                    for r in 4..=5u8 { oks.push(matches!(tokio::time::timeout(Duration::from_millis(300), f.write(tiny(r))).await, Ok(Ok(())))); }
+                    let mut got = vec![]; let mut buf = [0u8; 2048];
+                    while let Ok(n) = p2.recv(&mut buf) { got.push(buf[..n].to_vec()); }
+                    (oks, got)
+                })
+            },
+        }
+    }));
+    match got {
+        None => ctx.violation(&format!("c08/refused-send/{}/panic", fl.tok()), "writing to a peer whose port is closed panicked", &input, "results", "panic"),
+        Some((oks, dgrams)) => {
+            ctx.count(&format!("refused-send {}: {} of the first three writes were refused", fl.tok(), oks.iter().take(3).filter(|o| !**o).count()));
+            // what the re-opened peer receives: one datagram per write that succeeded after it re-opened, each exactly its frame
+            let want: Vec<Vec<u8>> = (4..=5u8).zip(oks.iter().skip(3)).filter(|(_, ok)| **ok).map(|(r, _)| vec![sb, 3, r, 3]).collect();
+            if dgrams != want {
+                ctx.violation(&format!("c08/refused-send/{}", fl.tok()), "after a refused send, a successful write did not leave as one datagram holding exactly its own frame", &input, &join_hex(&want), &format!("{:?} {}", oks, join_hex(&dgrams)));
+            }
+        },
+    }
+}
+
 fn join_hex(v: &[Vec<u8>]) -> String {
     if v.is_empty() { "-".into() } else { v.iter().map(|b| hex(b)).collect::<Vec<_>>().join("+") }
 }
@@ -384,6 +440,7 @@ pub fn run(ctx: &mut Ctx) {
                     session_case(ctx, fl(f), *m == "c", &d, "replay");
                     MID_HANDSHAKE.store(false, std::sync::atomic::Ordering::Relaxed);
                 },
+                ["udp.refused", f, m] => refused_send_case(ctx, if *f == "tokio" { Flavour::Tokio } else { Flavour::Blocking }, *m == "c"),
                 ["udp.write", f, m, frames] => {
                     let d: Vec<Vec<u8>> = frames.split('+').map(unhex).collect();
                     write_case(ctx, fl(f), *m == "c", &d);
@@ -529,6 +586,8 @@ pub fn run(ctx: &mut Ctx) {
                 let fr: Vec<Vec<u8>> = (0..k).map(|_| ctx.rng.pick(&any).clone()).collect();
                 write_case(ctx, fl, compressed, &fr);
             }
+            // a send that is refused (closed port), then sends that succeed
+            refused_send_case(ctx, fl, compressed);
             // … including every large frame (well beyond 255 bytes in compressed mode), alone and between small ones
             let bigs = big_frames(compressed);
             for b in &bigs {
